@@ -559,6 +559,118 @@ theorem C03_wide_nonvacuous_plain :
   rw [h.2 trivial]
   decide
 
+/-! `tests/action-break.sh` "label, pass, label, break and move", with the `break` first and the `pass` doubled. -/
+def exTreeLPLBM : Expr :=
+  .block 1 (.or 1 (.or 1
+    (.mtch 2 (.all 2) (.and 2 (.and 2 (.label 2 [[111]]) (.pass 2)) (.pass 2)))
+    (.mtch 3 (.all 3) (.block 3 (.mtch 4 (.all 4) (.and 4 (.brk 4) (.label 4 [[116]]))))))
+    (.mtch 5 (.all 5) (.move 5 [47, 100])))
+
+def exRulesLPLBM : List Spec.Rule :=
+  [.acts 2 (.all 2) [.label 2 [[111]]] .pass,
+   .blk 3 (.all 3) [.acts 4 (.all 4) [.label 4 [[116]]] .brk],
+   .acts 5 (.all 5) [.move 5 [47, 100]] .none]
+
+theorem C03_wide_label_pass_label_break_move :
+    Spec.parseBlockW exTreeLPLBM = some exRulesLPLBM ∧ Spec.parseBlock exTreeLPLBM = none ∧
+    Proofs.InDomainW exEnv exTreeLPLBM = true ∧
+    Spec.evalBlock exVal Proofs.actionErr exRulesLPLBM =
+      { res := .match, actions := [.label 2 [[111]], .label 4 [[116]], .move 5 [47, 100]], crosses := false } ∧
+    (eval exEnv exMsg exTreeLPLBM 0 exMsg { ml := [], flags := MFlags.empty }).1 = .match ∧
+    Spec.planOf (Proofs.mlKeys (eval exEnv exMsg exTreeLPLBM 0 exMsg { ml := [], flags := MFlags.empty }).2.ml) =
+      ([(.label, 2), (.label, 4)], some (.move, 5)) := by
+  have hp : Spec.parseBlockW exTreeLPLBM = some exRulesLPLBM := by
+    simp [exTreeLPLBM, exRulesLPLBM, Spec.parseBlockW, Spec.parseRulesW, Spec.parseRuleW, Spec.splitActsW, Spec.ctlOfList,
+      Spec.andChain, Spec.isPassExpr, Spec.isBrkExpr, Spec.isCond, Spec.isCtlExpr, Spec.isActionExpr]
+  have hno : Spec.parseBlock exTreeLPLBM = none := by
+    simp [exTreeLPLBM, Spec.parseBlock, Spec.parseRules, Spec.parseRule, Spec.splitActs, Spec.andChain, Spec.isCond,
+      Spec.isCtlExpr, Spec.isActionExpr]
+  have hd : Proofs.InDomainW exEnv exTreeLPLBM = true := by decide +kernel
+  have ho : Spec.evalBlock exVal Proofs.actionErr exRulesLPLBM =
+      { res := .match, actions := [.label 2 [[111]], .label 4 [[116]], .move 5 [47, 100]], crosses := false } := by
+    simp [exRulesLPLBM, Spec.evalBlock, Spec.evalRules, Spec.condVal, ex_v_all, Proofs.actionErr, PATH_MAX]
+  have hc : (Spec.evalBlock exVal Proofs.actionErr exRulesLPLBM).crosses = false := by rw [ho]
+  have h := C03_eval_refines_spec_wide exEnv exMsg MFlags.empty exTreeLPLBM exRulesLPLBM hp hd hc
+  simp only [ho] at h
+  refine ⟨hp, hno, hd, ho, h.1, ?_⟩
+  rw [h.2 trivial]
+  decide
+
+/-! The README configuration (first block).  `h "x"` = `ofString "x"`. -/
+def rdEnv : Env := { exEnvA with path := ofString "/m/cur/1:2,S" }
+
+def rdTree (withIsdir : Bool) : Expr :=
+  let r1 : Expr := .mtch 3 (.and 3 (.header 3 [ofString "From"] { src := ofString "notifications@github.com" })
+      (.header 4 [ofString "Subject"] { src := ofString "mdsort" })) (.move 4 (ofString "/h/Maildir/mdsort"))
+  let r2 : Expr := .mtch 7 (.header 7 [ofString "Cc", ofString "To"] { src := ofString "(bugs|misc|ports|tech)@openbsd.org", icase := true })
+      (.move 8 (ofString "/h/Maildir/openbsd-\\1"))
+  let r3 : Expr := .mtch 11 (.header 11 [ofString "To"] { src := ofString "user\\+(.+)@example.com", lcase := true })
+      (.label 11 [ofString "\\1"])
+  let r4 : Expr := .mtch 15 (.and 15 (.header 15 [ofString "To"] { src := ofString "user\\+(.+)@example.com", lcase := true })
+      (.stat 16 (ofString "/h/Maildir/\\1"))) (.move 16 (ofString "/h/Maildir/\\1"))
+  let r5 : Expr := .mtch 19 (.all 19) (.attBlock 19 (.block 19
+      (.mtch 20 (.header 20 [ofString "Content-Type"] { src := ofString "text/calendar" })
+        (.exec 21 true true [ofString "icalendar2calendar"]))))
+  let r6 : Expr := .mtch 25 (.neg 25 (.new 25)) (.move 25 (ofString "/h/Maildir/Archive"))
+  if withIsdir then .block 2 (.or 2 (.or 2 (.or 2 (.or 2 (.or 2 r1 r2) r3) r4) r5) r6)
+  else .block 2 (.or 2 (.or 2 (.or 2 (.or 2 r1 r2) r3) r5) r6)
+
+def rdRules : List Spec.RuleA :=
+  [.acts 3 (.and 3 (.header 3 [ofString "From"] { src := ofString "notifications@github.com" })
+      (.header 4 [ofString "Subject"] { src := ofString "mdsort" })) [.plain (.move 4 (ofString "/h/Maildir/mdsort"))] .none,
+   .acts 7 (.header 7 [ofString "Cc", ofString "To"] { src := ofString "(bugs|misc|ports|tech)@openbsd.org", icase := true })
+      [.plain (.move 8 (ofString "/h/Maildir/openbsd-\\1"))] .none,
+   .acts 11 (.header 11 [ofString "To"] { src := ofString "user\\+(.+)@example.com", lcase := true })
+      [.plain (.label 11 [ofString "\\1"])] .none,
+   .acts 19 (.all 19) [.att 19
+      [.acts 20 (.header 20 [ofString "Content-Type"] { src := ofString "text/calendar" })
+        [.plain (.exec 21 true true [ofString "icalendar2calendar"])] .none]] .none,
+   .acts 25 (.neg 25 (.new 25)) [.plain (.move 25 (ofString "/h/Maildir/Archive"))] .none]
+
+abbrev rdCtx := Proofs.partCtx rdEnv exMsgA MFlags.empty
+
+theorem rd_v :
+    rdCtx.v 0 exMsgA (.header 3 [ofString "From"] { src := ofString "notifications@github.com" }) = .nomatch ∧
+    rdCtx.v 0 exMsgA (.header 7 [ofString "Cc", ofString "To"] { src := ofString "(bugs|misc|ports|tech)@openbsd.org", icase := true }) = .nomatch ∧
+    rdCtx.v 0 exMsgA (.header 11 [ofString "To"] { src := ofString "user\\+(.+)@example.com", lcase := true }) = .nomatch ∧
+    rdCtx.v 1 exP1 (.header 20 [ofString "Content-Type"] { src := ofString "text/calendar" }) = .nomatch ∧
+    rdCtx.v 2 exP2 (.header 20 [ofString "Content-Type"] { src := ofString "text/calendar" }) = .nomatch ∧
+    rdCtx.v 0 exMsgA (.new 25) = .nomatch ∧ (∀ l, rdCtx.v 0 exMsgA (.all l) = .match) := by
+  simp only [rdCtx, Proofs.partCtx, eval]
+  refine ⟨by decide +kernel, by decide +kernel, by decide +kernel, by decide +kernel, by decide +kernel, by decide +kernel,
+    fun _ => trivial⟩
+
+/-- The README configuration (first block, `~` = `/h`) without its rule `match header "To" /user\\+(.+)@example.com/l
+and isdirectory "~/Maildir/\\1" move "~/Maildir/\\1"` is inside the domain (with that rule it is not: the string of
+the `isdirectory` condition holds a back-reference, `wfTreeA`); on the two-part message, read and in `cur`, no
+header rule and no attachment matches, the last rule archives it. -/
+theorem C03_readme_nonvacuous :
+    Spec.parseBlockAW (rdTree false) = some rdRules ∧ Proofs.InDomainAW rdEnv (rdTree false) = true ∧
+    Proofs.InDomainA rdEnv (rdTree true) = false ∧
+    (Spec.evalBlockA rdCtx Proofs.actionErr exMsgA rdRules).res = .match ∧
+    (Spec.evalBlockA rdCtx Proofs.actionErr exMsgA rdRules).crosses = false ∧
+    (Spec.evalBlockA rdCtx Proofs.actionErr exMsgA rdRules).leaks = false ∧
+    (eval rdEnv exMsgA (rdTree false) 0 exMsgA { ml := [], flags := MFlags.empty }).1 = .match ∧
+    Spec.planP (Proofs.mlKeysP (eval rdEnv exMsgA (rdTree false) 0 exMsgA { ml := [], flags := MFlags.empty }).2.ml) =
+      ([], some (.move, 25, 0)) := by
+  have hp : Spec.parseBlockAW (rdTree false) = some rdRules := by
+    simp [rdTree, rdRules, Spec.parseBlockAW, Spec.parseRulesAW, Spec.parseRuleAW, Spec.parseChainAW, Spec.parseActAW,
+      Spec.ctlOfList, Spec.andChain, Spec.isPassExpr, Spec.isBrkExpr, Spec.isCond, Spec.isCtlExpr, Spec.isActionExpr]
+  have hd : Proofs.InDomainAW rdEnv (rdTree false) = true := by decide +kernel
+  have hparts : rdCtx.parts exMsgA = some [exP1, exP2] := exA_parts
+  have ho : Spec.evalBlockA rdCtx Proofs.actionErr exMsgA rdRules =
+      { res := .match, actions := [(0, .move 25 (ofString "/h/Maildir/Archive"))], crosses := false, leaks := false } := by
+    have hlen : ¬ 4096 ≤ List.length (ofString "/h/Maildir/Archive") := by decide +kernel
+    simp [rdRules, Spec.evalBlockA, Spec.evalRulesA, Spec.evalActsA, Spec.forParts, Spec.condValA, Spec.partIndex,
+      hparts, rd_v, Proofs.actionErr, PATH_MAX, hlen]
+  have hc : (Spec.evalBlockA rdCtx Proofs.actionErr exMsgA rdRules).crosses = false := by rw [ho]
+  have hl : (Spec.evalBlockA rdCtx Proofs.actionErr exMsgA rdRules).leaks = false := by rw [ho]
+  have h := C03_eval_refines_spec_att_wide rdEnv exMsgA MFlags.empty (rdTree false) rdRules hp hd hc hl
+  simp only [ho] at h
+  refine ⟨hp, hd, by decide +kernel, by rw [ho], hc, hl, h.1, ?_⟩
+  rw [h.2 trivial]
+  decide
+
 /-! ### The three classes outside `ctlPlaced` are real
 
 (1) `actionAfterPass`.  `match all label "x" pass move "/y"`: documented = the rule's actions are the label
